@@ -63,14 +63,22 @@ impl Frame {
 
         let msg_id = Self::get_message_id(crs)?;
 
-        if FromPrimitive::from_u8(msg_id) != Some(MsgId::HandshakeId) && length > MAX_FRAME_SIZE {
+        // Handshake has no length prefix, it is recognised by its beginning ("\x13Bit" read as
+        // length, 'T' at message ID position). 'T' alone is an ordinary (unknown) message ID
+        let handshake_prefix = u32::from_be_bytes([19, b'B', b'i', b't']) as usize;
+        let msg_id_kind = match FromPrimitive::from_u8(msg_id) {
+            Some(MsgId::HandshakeId) if length != handshake_prefix => None,
+            kind => kind,
+        };
+
+        if msg_id_kind != Some(MsgId::HandshakeId) && length > MAX_FRAME_SIZE {
             return Err(Error::MsgToLarge);
         }
 
         let protocol_id_length = Self::get_protocol_id_length(crs)?;
         let available_data = Self::available_data(crs);
 
-        match FromPrimitive::from_u8(msg_id) {
+        match msg_id_kind {
             Some(MsgId::HandshakeId) => {
                 crs.set_position(Handshake::check(crs, protocol_id_length, available_data)? as u64);
                 Ok(Frame::Handshake(Handshake::from(crs)))
